@@ -1,4 +1,6 @@
 import NixModel.Index
+import NixModel.NDArray
+import NixModel.Spec.C01
 namespace Nix.Drive
 
 /-- the axis a trace is currently talking about (index family) -/
@@ -8,7 +10,19 @@ inductive AxisDesc
   | range (ticks : List Float) (unit : Option String)
   | count (n : Nat)          -- set dimension with n labels / data-frame dimension with n rows
 
+/-- the data array a trace is currently talking about (array family); elements are tokens -/
+structure ArrSt where
+  arr : NDArray String
+  dtype : String
+  poly : List Float := []
+  origin : Option Float := none
+  view : Option View := none
+  -- what the IMPLEMENTATION did, as far as its own answers say (for judging reads against the history rule)
+  hist : List (C01.HOp String) := []
+  implShape : Idx := []
+
 structure DState where
   axis : AxisDesc := .none
+  arr : Option ArrSt := none
 
 end Nix.Drive
